@@ -110,6 +110,8 @@ def run(ctx):
     res.rules["Q-ISO"] = "isolated_nodes / is_isolated decide isolation from the neighbour set (directly or by delegation), never from incidence lists or degrees"
     with res.guard("RC.check_isolation(ctx, res, Hypergraph)"):
         RC.check_isolation(ctx, res, "Hypergraph")
+    with res.guard("RC.check_memo_keys"):
+        RC.check_memo_keys(ctx, res, "Hypergraph")
 
     # ---- degree = len(filtered incident list of the same node)
     with res.guard("degree = len(filtered incident list of the same node)"):
